@@ -270,7 +270,9 @@ def sample_inputs(w, ct, sc, results, extra):
             base.assume(clause_truth(e0, req, cenv, fv.mi))
     except Exception:  # noqa
         return out
-    rng = random.Random(hash((ct.key, sc.name)) & 0xFFFF)
+    import zlib
+
+    rng = random.Random(zlib.crc32(f"{ct.key}|{sc.name}".encode()))
 
     class _VC:
         pc = base.pc
